@@ -72,6 +72,97 @@ def mk_case(i, n, qs, remaining_last, side, var_idx=None, style=0):
     return case, gen
 
 
+def mk_nested_case(i, rng):
+    """an allotment inside a clause of an allotment (in the first, a middle or the last clause; in a source or in a
+    destination; directly or under `max … from` / an ordered block): every account must be debited / credited the share
+    of the share"""
+    def vec(k):
+        den = rng.choice([2, 3, 4, 5, 10])
+        cuts = sorted(rng.randrange(0, den + 1) for _ in range(k - 1))
+        return [Fraction(b - a, den) for a, b in zip([0] + cuts, cuts + [den])]
+    side = rng.choice(["src", "dst"])
+    n = rng.choice([rng.randrange(0, 200), 101, 100, 7, 2 ** 64 + rng.randrange(0, 50)])
+    counter = [0]
+    need_cap = [False]
+
+    def leaf():
+        counter[0] += 1
+        nm = "n%d" % counter[0]
+        if side == "src":
+            return "@%s allowing unbounded overdraft" % nm, ('unb', nm)
+        return "@%s" % nm, ('acct', nm)
+
+    def allot(depth):
+        k = rng.choice([2, 2, 3])
+        qs = vec(k)
+        use_rem = rng.random() < 0.3
+        texts, nodes = [], []
+        for j, q in enumerate(qs):
+            nested = depth > 0 and rng.random() < (0.6 if j < k - 1 else 0.3)
+            if nested:
+                t, node = allot(depth - 1)
+                wrap = rng.random()
+                if side == "src" and wrap < 0.25:
+                    t, node = "max $cap from %s" % t, ('capped', 10 ** 40, node)      # (a literal that large is a known finding)
+                    need_cap[0] = True
+                elif side == "src" and wrap < 0.4:
+                    t, node = "{ %s }" % t, ('inorder', [node])
+            else:
+                t, node = leaf()
+            pt = "remaining" if (use_rem and j == k - 1) else portion_text(q, rng.randrange(3))
+            qq = None if (use_rem and j == k - 1) else q
+            if side == "src":
+                texts.append("%s from %s" % (pt, t))
+                nodes.append((qq, node))
+            else:
+                texts.append("%s to %s" % (pt, t))
+                nodes.append((qq, ('to', node)))
+        return "{ " + " ".join(texts) + " }", ('allot', nodes)
+
+    t, node = allot(rng.choice([1, 1, 2]))
+    vars_, decls = {}, []
+    amount = "[COIN %d]" % n
+    if n >= 2 ** 63:
+        vars_["amt"] = "COIN %d" % n
+        decls.append("monetary $amt")
+        amount = "$amt"
+    if need_cap[0]:
+        vars_["cap"] = "COIN %d" % 10 ** 40
+        decls.append("monetary $cap")
+    vb = ("vars {\n" + "".join("  %s\n" % d for d in decls) + "}\n") if decls else ""
+    if side == "src":
+        script = vb + "send %s (\n  source = %s\n  destination = @dest\n)\n" % (amount, t)
+        stmt = ('send', 'COIN', n, node, ('acct', 'dest'))
+    else:
+        script = vb + "send %s (\n  source = @world\n  destination = %s\n)\n" % (amount, t)
+        stmt = ('send', 'COIN', n, ('acct', 'world', 0), node)
+    case = {"id": i, "op": "exec", "script": script, "vars": vars_, "balances": {}, "meta": {}, "store": "exact",
+            "failAt": -1, "perStmt": False}
+    gen = {"stmts": [stmt], "features": ["allot-nested-" + side], "var_error": None, "nested": True, "side": side, "n": n}
+    return case, gen
+
+
+def nested_oracle(case, gen, go):
+    try:
+        exp = spec.run_statements(gen["stmts"], {})
+    except spec.SpecError as e:
+        return [] if go["outcome"] == "err" else ["reference fails with %s, the interpreter succeeds" % e.kind]
+    if go["outcome"] != "ok":
+        return ["valid nested split failed: %s %s" % (go.get("errKind"), go.get("errPayload"))]
+    want, got = {}, {}
+    key = (lambda p: p[0]) if gen["side"] == "src" else (lambda p: p[1])
+    for p in exp["per_stmt"][0]:
+        want[key(p)] = want.get(key(p), 0) + int(p[2])
+    for p in go["postings"]:
+        got[key(p)] = got.get(key(p), 0) + int(p[2])
+    out = []
+    if sum(got.values()) != gen["n"]:
+        out.append("shares add up to %d, not %d" % (sum(got.values()), gen["n"]))
+    if got != want:
+        out.append("per-account shares %s, the share of the share gives %s" % (sorted(got.items())[:6], sorted(want.items())[:6]))
+    return out
+
+
 def mk_shared_case(i, rng):
     """one portion variable read several times: in two clauses of one allotment, in a source and a destination
     allotment, and in two statements; every text style. Account names are disjoint between statements."""
@@ -119,6 +210,8 @@ def mk_shared_case(i, rng):
 
 
 def oracle(case, gen, go):
+    if gen.get("nested"):
+        return nested_oracle(case, gen, go)
     if gen.get("parts"):
         out = []
         for part in gen["parts"]:
@@ -213,6 +306,11 @@ def run(chk):
             cases.append(c)
             gens.append(g)
 
+    # allotments nested in allotment clauses
+    for _ in range(chk.size(800, 10000)):
+        c, g = mk_nested_case(len(cases), rng)
+        cases.append(c)
+        gens.append(g)
     # one portion variable read at several places and in several statements
     for _ in range(chk.size(600, 8000)):
         c, g = mk_shared_case(len(cases), rng)
@@ -224,6 +322,8 @@ def run(chk):
     # the model's allotParts against independent rational arithmetic as well
     lines = []
     for i, g in enumerate(gens):
+        if g.get("nested"):
+            continue
         qs = g["qs"]
         total = sum((q for q in qs if q is not None), Fraction(0))
         ps = [(1 - total) if q is None else q for q in qs]
